@@ -8,7 +8,7 @@
               tables of the small (raw / dual) dictionaries, and hashes of every output
    wr       : write_model; read_model  (the reloaded copy continues the history)
    adduser  : read_user_lexicon on both copies *)
-EXTENDS VModel, VRewrite, VTemplate, Json, IOUtils, TLCExt
+EXTENDS VModel, VRewrite, VTemplate, VChar, Json, IOUtils, TLCExt
 CONSTANTS Prop, DevStarCollision, DevMergeNoBigram, DevDualClamp
 
 Rec == ndJsonDeserialize(IOEnv.TRACE)
@@ -178,10 +178,36 @@ IdsNameExpansions(ids, map, tpls, cells) ==
    /\ \A j \in 1..Len(tpls) :
         LET e == Expand(tpls[j], cells, 0) IN
         IF e.some THEN ids[j] # 0 /\ NameOf(map, ids[j]) = e.s ELSE ids[j] = 0
+(* unigram side: only produced features are listed; %t is the primary category of the surface's first character *)
+CateOfSurface(surf) == LET D == [cats |-> tin.cats, ranges |-> tin.ranges] IN
+                       IF surf[1] > 65535 THEN 0 ELSE LET ln == LastCover(D, surf[1], Len(D.ranges)) IN IF ln = 0 THEN 0 ELSE D.ranges[ln].cs[1]
+RECURSIVE UniNames(_, _, _, _)
+UniNames(tpls, cells, cate, j) ==
+   IF j > Len(tpls) THEN <<>>
+   ELSE LET e == Expand(tpls[j], cells, cate) IN
+        (IF e.some THEN <<e.s>> ELSE <<>>) \o UniNames(tpls, cells, cate, j + 1)
+UniIdsNameExpansions(ids, map, tpls, cells, cate) ==
+   LET want == UniNames(tpls, cells, cate, 1) IN
+   /\ Len(ids) = Len(want)
+   /\ \A j \in 1..Len(want) : NameOf(map, ids[j]) = want[j]
+(* C14: a user row given as 0,0,0 receives the trained parameters of ITS OWN features: its cost is the
+   scaled sum of the weights of the unigram features named by its own expansions *)
+WeightOfName(name) ==
+   LET ks == {k \in 1..Len(m.umap) : m.umap[k].s = name} IN
+   IF ks = {} THEN 0
+   ELSE LET id == m.umap[CHOOSE k \in ks : TRUE].id IN
+        IF id <= Len(m.uwi) /\ m.uwi[id] # 0 THEN m.W[m.uwi[id]] ELSE 0
+C14UserOwnCost(p, us) ==
+   (Len(p.user) = Len(us)) =>
+   \A k \in 1..Len(us) : (us[k].l = 0 /\ us[k].r = 0 /\ us[k].c = 0) =>
+      LET names == UniNames(tin.T.uni, Cells(us[k], tin.rules.uni), CateOfSurface(us[k].s), 1)
+          w == SumTo([j \in 1..Len(names) |-> WeightOfName(names[j])], 1, Len(names)) IN
+      CostOK(M, p.user[k].c, w)
 C18User(bg, p, us) ==
    (Len(p.user) = Len(us) /\ Len(m.userlabels) = Len(us)) =>
    \A k \in 1..Len(us) :
       LET lab == m.userlabels[k] IN
+      /\ UniIdsNameExpansions(m.fs[lab].u, m.umap, tin.T.uni, Cells(us[k], tin.rules.uni), CateOfSurface(us[k].s))
       /\ IdsNameExpansions(m.fs[lab].l, m.lmap, tin.T.left, Cells(us[k], tin.rules.left))
       /\ IdsNameExpansions(m.fs[lab].r, m.rmap, tin.T.right, Cells(us[k], tin.rules.right))
       /\ ((us[k].l = 0 /\ us[k].r = 0 /\ us[k].c = 0) =>
@@ -203,6 +229,7 @@ Gen ==
             /\ A("C14", "matrix-is-the-model-image", C14Matrix(p))
             /\ A("C14", "surfaces-preserved", \A i \in 1..Len(E.surf_ok) : E.surf_ok[i])
             /\ (users[who] = users.mem => A("C14", "user-rows-trained-iff-000", C14User(p, users[who])))
+            /\ (users[who] = users.mem => A("C14", "user-row-cost-is-the-weight-of-its-own-features", C14UserOwnCost(p, users[who])))
             /\ A("C16", "bigram-rows-and-costs-are-the-model-image", BgRowsOK(E.bg) /\ BgCostOK(E.bg))
             /\ A("C18", "class-tuples-are-expansions", C18Classes(E.bg, p))
             /\ A("C18", "unknown-entries-class-tuples-are-expansions", C18Unk(E.bg, p))
